@@ -27,6 +27,7 @@ Require Import V.Proofs.C04OracleProofs.
 Require Import V.Proofs.C04XOracleProofs.
 Require Import V.Proofs.RenderWords.
 Require Import V.Proofs.C04Bytes.
+Require Import V.Proofs.C04XBytes.
 Open Scope Z_scope.
 
 (* every reachable state satisfies the invariant the other statements are proved from *)
@@ -294,6 +295,46 @@ Theorem C04_oracle_history_cleaned : forall m rv h ops,
 Proof. exact oracle_history_cleaned. Qed.
 Print Assumptions C04_oracle_history_cleaned.
 
+(* ---- the same for the exclusive publication ----
+   `xall n x`: the invariant (`xpub_inv`), the tail counter's shape incl. the last term (`xtail2`), the content of the active
+   partition ends at the publication's own offset (`xcontent_inv`), MTU a multiple of 32; kept by every step under the cleaning
+   contract (`C04_invariants_step_exclusive`) *)
+Theorem C04_oracle_append_exclusive : forall m rv x n o x0 r0 n0 off0,
+  xall n x -> op_ok (xlog x) o -> is_xappend o = true ->
+  holds_append (geom_of (xlog x) n0 off0) (env_of (x_pub x)) (kind_of o) (op_len o)
+               (xpub_obs m x0 x r0) (xpub_obs m x (fst (xpub_step m rv x o)) (snd (xpub_step m rv x o))) = true.
+Proof. exact xoracle_step. Qed.
+Print Assumptions C04_oracle_append_exclusive.
+
+Theorem C04_invariants_step_exclusive : forall m rv x n o, xall n x -> op_ok (xlog x) o ->
+  (snd (xpub_step m rv x o) = Err AdminAction -> part (xlog x) (next_index (xlog x)) = []) ->
+  exists n', xall n' (fst (xpub_step m rv x o)) /\ same_geom (xlog x) (xlog (fst (xpub_step m rv x o))).
+Proof. exact xall_step. Qed.
+Print Assumptions C04_invariants_step_exclusive.
+
+Theorem C04_accept_frames_exclusive : forall m rv x n o x' p,
+  xpub_inv n x -> mtu_aligned (xlog x) -> op_ok (xlog x) o -> is_xappend o = true -> xpub_step m rv x o = (x', Ok p) ->
+  exists es, Forall entry_wf es /\ term_end es = op_required (xlog x) o /\
+    xlog x' = set_part (put_raw_tail (xlog x) (x_idx x) (x_tid x) (x_off x + op_required (xlog x) o)) (x_idx x)
+                       (term_put (part (xlog x) (x_idx x)) (x_off x) es) /\
+    x_off x + op_required (xlog x) o <= l_tlen (xlog x).
+Proof. exact xpub_step_wrote. Qed.
+Print Assumptions C04_accept_frames_exclusive.
+
+Theorem C04_oracle_history_exclusive : forall m rv h ops x0,
+  handover_ok h -> handover_aligned h -> hist_ok (handover_log h) ops -> xpub_new (handover_log h) = Ok x0 ->
+  xclean_before_reuse m rv x0 ops ->
+  holds_history (geom_of_handover h) (map xoop_of ops) (xpub_trace m rv x0 ops) = true.
+Proof. exact xoracle_history. Qed.
+Print Assumptions C04_oracle_history_exclusive.
+
+Theorem C04_oracle_history_exclusive_cleaned : forall m rv h ops x0,
+  handover_ok h -> handover_aligned h -> hist_ok (handover_log h) ops -> xpub_new (handover_log h) = Ok x0 ->
+  cleaned_between false ops ->
+  holds_history (geom_of_handover h) (map xoop_of ops) (xpub_trace m rv x0 ops) = true.
+Proof. exact xoracle_history_cleaned. Qed.
+Print Assumptions C04_oracle_history_exclusive_cleaned.
+
 (* non-vacuity: a history that trips at the end of a term, rotates, fragments a message, claims and commits *)
 Example C04_history_example :
   let h := mkHandover 7 1024 96 11 22 4 960 in
@@ -310,6 +351,23 @@ Proof.
   - unfold hist_ok. repeat (constructor; [vm_compute; try exact I; repeat split; discriminate|]). constructor.
   - vm_compute. repeat split.
   - vm_compute. reflexivity.
+Qed.
+
+Example C04_history_example_exclusive :
+  let h := mkHandover 2147483647 1024 96 11 22 (two31 - 1) 960 in
+  let ops := [SetLimit (1024 * two31 + 100); Offer (payload 1 100); Clean; Claim 8; Clean; Commit (payload 3 8); Offer (payload 2 8)] in
+  handover_ok h /\ handover_aligned h /\ hist_ok (handover_log h) ops /\ cleaned_between false ops /\
+  exists x0, xpub_new (handover_log h) = Ok x0 /\
+    map (fun x => fst (fst x)) (xpub_trace Debug harness_rv x0 ops) =
+      [Ok 0; Err MaxPositionExceeded; Ok 0; Err MaxPositionExceeded; Ok 0; Panic; Err MaxPositionExceeded].
+Proof.
+  cbv zeta. split; [|split; [|split; [|split]]].
+  - unfold handover_ok, geometry_ok. cbn [h_init h_tlen h_mtu h_n0 h_off0].
+    split; [split; [exists 10; split; [lia|reflexivity]|]|]; vm_compute; repeat split; discriminate.
+  - split; reflexivity.
+  - unfold hist_ok. repeat (constructor; [vm_compute; try exact I; repeat split; discriminate|]). constructor.
+  - vm_compute. repeat split.
+  - eexists. split; [reflexivity|]. vm_compute. reflexivity.
 Qed.
 
 (* ---- the hypotheses are satisfiable: a log handed over 64 bytes before the end of the very last term, initial term id
